@@ -1510,7 +1510,7 @@ def post(ctx):
     ctx.require("append with a metadata key only one side has", c["append-variant:meta:only-in-new"] + c["append-variant:meta:only-in-file"], 1 * t)
     ctx.require("append of a float64 column onto a float32 column of the file", c["append-variant:dtype:float32->"], 2 * t)
     ctx.require("append of a float32 column onto a float64 column of the file", c["append-variant:dtype:float64->"], 2 * t)
-    ctx.require("append with an extra last column", c["append-variant:extra:end"], 2 * t)
+    ctx.require("append with an extra last column", c["append-variant:extra:end"], 1 * t)
     ctx.require("append with the last column missing", c["append-variant:missing:last"], 2 * t)
     ctx.require("append without epoch onto a file with epoch", c["append-variant:tref:time->none"], 1 * t)
     ctx.require("write with overwrite+append on an existing file", c["write:both:file"], 3 * t)
